@@ -1,7 +1,7 @@
 #!/usr/bin/env python3
 """Re-run the quick check of the broken property against every seeded change (seeded/*/patch.diff):
 apply to /repo, run, undo straight afterwards.  Exit 1 if a change is no longer detected.
-Usage: seeded_regress.py [id-substring ...]"""
+Usage: seeded_regress.py [id-substring ...]   (with substrings: only those are re-run and their entries in seeded/regress.json updated)"""
 import glob, json, os, subprocess, sys, time
 
 ROOT = os.path.dirname(os.path.dirname(os.path.abspath(__file__)))
@@ -41,9 +41,14 @@ def main():
     print("missed:", missed)
     weak = [k for k, r in results.items() if r["verdict"] == "no-failing-input-found"]
     print("reported without a failing input:", weak)
-    if not want:
-        json.dump({"seed": int(os.environ.get("VERIF_SEED", "0") or 0), "results": results},
-                  open(os.path.join(ROOT, "seeded", "regress.json"), "w"), indent=1)
+    path = os.path.join(ROOT, "seeded", "regress.json")
+    if want and os.path.exists(path):
+        # a partial run updates the entries it re-ran
+        old = json.load(open(path)).get("results", {})
+        old.update(results)
+        results = old
+    json.dump({"seed": int(os.environ.get("VERIF_SEED", "0") or 0), "results": dict(sorted(results.items()))},
+              open(path, "w"), indent=1)
     sys.exit(1 if missed else 0)
 
 if __name__ == "__main__":
